@@ -28,27 +28,43 @@ using namespace libcellml;
 #ifndef ATTR
 #    define ATTR 0
 #endif
+// every symbolic choice made for a child is folded into that child's code, so that the harness knows - independently of
+// equals() - whether two children were given identical attributes (the sensitivity oracle)
+static long gCode[4];
+static int gChild = -1;
+static void newChild()
+{
+    ++gChild;
+    gCode[gChild] = 1;
+}
+static int pick(int lo, int hi)
+{
+    int k = vin(lo, hi);
+    gCode[gChild] = gCode[gChild] * 16 + (k - lo);
+    return k;
+}
 static std::string sym(int attr, char base)
 {
     std::string s;
     if (ATTR == 0 || ATTR == attr) {
-        int k = vin(0, ALPHA); // "", or one character out of ALPHA letters
+        int k = pick(0, ALPHA); // "", or one character out of ALPHA letters
         if (k > 0) s.push_back((char)(base + k - 1));
     }
     return s;
 }
 static int symInt(int attr, int lo, int hi, int dflt)
 {
-    return (ATTR == 0 || ATTR == attr) ? vin(lo, hi) : dflt;
+    return (ATTR == 0 || ATTR == attr) ? pick(lo, hi) : dflt;
 }
 static VariablePtr mkVar()
 {
+    newChild();
     auto v = Variable::create(sym(1, 'x'));
     v->setId(sym(2, 'i'));
     v->setInitialValue(sym(3, '1'));
     if (ATTR == 0 || ATTR == 4) {
         std::string u("u");
-        u[0] = (char)('u' + vin(0, 1)); // units by name: always present (an optional allocation would make the heap shape symbolic)
+        u[0] = (char)('u' + pick(0, 1)); // units by name: always present (an optional allocation would make the heap shape symbolic)
         v->setUnits(u);
     }
     int it = symInt(5, 0, 4, 4);
@@ -57,9 +73,17 @@ static VariablePtr mkVar()
 }
 static ResetPtr mkReset(const VariablePtr &v1, const VariablePtr &v2)
 {
+    newChild();
     auto r = Reset::create();
     r->setId(sym(1, 'i'));
-    if (symInt(2, 0, 1, 0)) r->setOrder(symInt(2, 0, 2, 1));
+    {
+        // equality covers the order value (an unset order reads as 0), not the presence flag: fold the effective value
+        long before = gCode[gChild];
+        bool set = symInt(2, 0, 1, 0) != 0;
+        int order = set ? symInt(2, 0, 2, 1) : 0;
+        if (set) r->setOrder(order);
+        if (ATTR == 0 || ATTR == 2) gCode[gChild] = before * 16 + order;
+    }
     int a = symInt(3, 0, 2, 1);
     if (a == 1) r->setVariable(v1);
     if (a == 2) r->setVariable(v2);
@@ -74,10 +98,12 @@ static ResetPtr mkReset(const VariablePtr &v1, const VariablePtr &v2)
 }
 static ComponentPtr mkComp()
 {
+    newChild();
     auto c = Component::create(sym(1, 'c'));
     c->setId(sym(2, 'i'));
     c->setEncapsulationId(sym(3, 'e'));
     c->setMath(sym(4, 'm'));
+    c->setImportReference(sym(5, 'n'));
     return c;
 }
 static double symNum(int attr)
@@ -88,6 +114,9 @@ static double symNum(int attr)
 }
 static void addUnitTo(const UnitsPtr &u)
 {
+#if KIND == 5
+    newChild();
+#endif
     // one input per statement: the order of evaluation of call arguments differs between compilers
     std::string ref = sym(1, 'r');
     std::string pre = sym(2, 'p');
@@ -98,8 +127,10 @@ static void addUnitTo(const UnitsPtr &u)
 }
 static UnitsPtr mkUnits()
 {
+    newChild();
     auto u = Units::create(sym(6, 'u'));
     u->setId(sym(7, 'i'));
+    u->setImportReference(sym(8, 'n'));
     addUnitTo(u);
     return u;
 }
@@ -114,7 +145,9 @@ static UnitsPtr mkUnits()
     if (NA == NB || !KNOWN_COUNT_ASYMMETRY) vcheck(ab == ba, "equals is symmetric"); \
     if (NA > NB) vcheck(!ab, "different numbers of children: the side with more children is not equal to the other"); \
     if (NB > NA) vcheck(!ba, "different numbers of children: the side with more children is not equal to the other"); \
-    if (NA != NB && !KNOWN_COUNT_ASYMMETRY) vcheck(!ab && !ba, "equals is false for different numbers of children");
+    if (NA != NB && !KNOWN_COUNT_ASYMMETRY) vcheck(!ab && !ba, "equals is false for different numbers of children"); \
+    if (NA == 1 && NB == 1) vcheck(ab == (gCode[0] == gCode[1]), "equals is true exactly when the two children were given the same attributes"); \
+    if (NA == 2 && NB == 2) vcheck(ab == ((gCode[0] == gCode[2] && gCode[1] == gCode[3]) || (gCode[0] == gCode[3] && gCode[1] == gCode[2])), "equals is true exactly when the children match pairwise in some order");
 
 // the count asymmetry of variables / resets / model units is a listed finding (known_findings.json): with the define on,
 // the claims that it breaks are not asserted for shapes with different counts; everything else still is.
